@@ -22,7 +22,8 @@ COQ_DIRS = ["Gen/C20_Tables.v"]
 SHARD = 500
 RULE = ("ladder: every (platform in FreeBSD/OpenBSD/NetBSD/macOS/SunOS/AIX/Windows) x (public method of the platform Process "
         "class) x (native call the method makes, discovered by a fault-free run for pid 7 and pid 0) x (ESRCH, ENOENT, EPERM, "
-        "EACCES, EIO, EINVAL; on Windows also winerror 5, 1314, 299, 87) x (alive, zombie, gone) x pid in {7, 0}; layout: every "
+        "EACCES, EIO, EINVAL; on Windows also winerror 5, 1314, 299, 87) x (alive, zombie, gone = not listed) x pid in {7, 0}, plus ESRCH for a PID "
+        "listed with EVERY native status code of the platform's PROC_STATUSES; layout: every "
         "documented (platform, method, route) on random native records of distinct values; front end: random IPv4 address/mask "
         "(prefix masks, host masks, non-contiguous, missing), IPv6, MACs of 1..6 octets, per platform; exposed names per "
         "platform. Non-trivial = the fault fires / the record is non-empty; distinct = distinct canonical case hash.")
@@ -124,6 +125,16 @@ def gen_cases(rng, tier):
                         for st in STATES:
                             cases.append({"kind": "ladder", "cls": "ladder-%s-%s" % (plat, e), "plat": plat, "meth": meth,
                                           "site": site, "err": e, "state": st, "pid": pid})
+    # ---- the zombie test for EVERY native status code of PROC_STATUSES (ESRCH; ENOENT too where it means "gone")
+    for r in _PROBE["status"]:
+        plat = r["plat"]
+        for meth, sites in sorted(_PROBE["sites"][plat].items()):
+            for pid in (7, 0):
+                for site in sites[str(pid)]:
+                    for code, _text in r["codes"]:
+                        for e in (["ESRCH", "ENOENT"] if plat in ("sunos", "aix") else ["ESRCH"]):
+                            cases.append({"kind": "ladder", "cls": "status-%s-%s" % (plat, code), "plat": plat, "meth": meth,
+                                          "site": site, "err": e, "state": "code:" + code, "pid": pid})
     # ---- layout on random records
     for u in _PROBE["usage"]:
         plat, meth, var = u["plat"], u["meth"], u["variant"]
@@ -188,8 +199,10 @@ def coq_term(case):
     if k == "names":
         return "run_names %s" % COQ_PLAT[case["plat"]]
     if k == "ladder":
+        st = case["state"]
+        st = "(state_of_code %s %s)" % (COQ_PLAT[case["plat"]], _qs(st[5:])) if st.startswith("code:") else COQ_STATE[st]
         return "run_ladder %s %s %s %s %s %s" % (COQ_PLAT[case["plat"]], _qs(case["meth"]), _qs(case["site"]), case["err"],
-                                                 COQ_STATE[case["state"]], G.z(case["pid"]))
+                                                 st, G.z(case["pid"]))
     if k == "layout":
         return "run_layout %s %s %s %s" % (COQ_PLAT[case["plat"]], _qs(case["meth"]), _qs(case["variant"]),
                                            _records_term(case["records"]))
@@ -216,8 +229,13 @@ def coq_struct(case, raw):
 
 # ------------------------------------------------------------------ findings / judge
 def finding_key(case, coq):
-    # no open finding class: windows-ppid-not-wrapped (a2d103c), gids-returns-puids (1275da7, 5229996) and
-    # sunos-terminal-ignores-ttynr (5229996) are fixed; their old failing inputs are replayed from corpus/C20
+    # fixed (old inputs replayed from corpus/C20): windows-ppid-not-wrapped a2d103c, gids-returns-puids 1275da7+5229996,
+    # sunos-terminal-ignores-ttynr 5229996.  Open: a PID 0 the OS does not list is taken to exist (_psposix.pid_exists(0)).
+    if case["kind"] == "ladder" and case["pid"] == 0 and case["state"] == "gone":
+        if case["plat"] == "sunos" and case["err"] in ("ESRCH", "ENOENT"):
+            return "pid0-unlisted-taken-to-exist"
+        if case["plat"] == "netbsd" and case["meth"] == "cmdline" and case["site"] == "proc_cmdline" and case["err"] == "EINVAL":
+            return "pid0-unlisted-taken-to-exist"
     return None
 
 
